@@ -24,7 +24,7 @@ def deviations():
         module = os.path.basename(cfg).split("-")[0]
         d = vlib.tlc_dir(None)
         rc, out = vlib.run_tlc(module + ".tla", open(cfg).read(), workers=4, heap="6g", timeout=900, d=d)
-        refuted = ("is violated" in out or "was violated" in out) and "No error has been found" not in out
+        refuted = ("is violated" in out or "was violated" in out or "were violated" in out) and "No error has been found" not in out
         what = re.findall(r"(?:Invariant|Temporal property) (\w+) (?:is|was) violated", out)
         expect(refuted, "deviation %s refuted by TLC (%s)" % (os.path.basename(cfg), ",".join(what) or "?"))
     # D7 at the design level: requiring the reference for lists with duplicate keys refutes the algorithm of cache.go
